@@ -72,6 +72,10 @@ BytesTys == {"bytes", "bslice", "bu8", "cowbu8"}          \* "cowbu8": Cow<[u8]>
 (* optional if its type is spelled Option<..> (absent = None), otherwise it takes part in the format like any mandatory  *)
 (* field - always written, here as null when it holds None - and both directions agree on that whichever half is custom. *)
 CodTys == {"pcd", "pce", "pcb", "pcw"}
+(* "oo": Option<Option<u8>>.  Absent is the outer None only; Some(None) is a present value whose encoding is null (n = OoNone),    *)
+(* Some(Some(n)) encodes as n.  Reading it back cannot tell Some(None) from None (the statement of C01 lists the shape as lossy), *)
+(* so such schemas are used for what the encoder writes only (C08, C07).                                                           *)
+OoNone == 256
 MustBorrow(ty) == ty \in {"bstr", "bslice", "bu8", "cowb", "cowbu8"}
 (* "any": a field whose value a newer writer produced by means unknown to this specification - any well-formed item.  Only   *)
 (* writer schemas have it, and only readers that do not know the field ever see it: it must be ignored whatever it is (C10). *)
@@ -117,6 +121,7 @@ EncFieldF(f, x, fr) ==
      [] f.ty \in BytesTys -> PreferredHead(2, FromNat(Len(x.b))) \o x.b
      [] f.ty = "cu"    -> Uint(x.n + 1000)
      [] f.ty \in CodTys -> (IF x.some THEN Uint(x.n) ELSE <<246>>)
+     [] f.ty = "oo"    -> (IF x.n = OoNone THEN <<246>> ELSE Uint(x.n))
      [] f.ty = "any"   -> AnyItems[x.n]
      [] OTHER          -> DocEncP(Nested(f.ty), x.sub, [NoPt EXCEPT !.fr = fr])
 Live(fields) == { i \in 1..Len(fields) : ~fields[i].skip }
